@@ -2,7 +2,7 @@
 LEVEL = 'model_checking'
 LIMITS = {'max_unsupported': 0, 'max_undecided_frac': 0.01}
 OUTSIDE = ['token sequences longer than the exhaustive bound that do not match one of the listed templates',
-           'statements other than a single expression; struct instantiation `Name { … }`, string interpolation, newlines inside expressions, number / identifier lexing (every Number is the literal 1, every Identifier is x: the tree shape does not depend on the lexeme) — the mapping from characters to token kinds is the subject of the tokenizer kernel of C08',
+           'statements other than a single expression; struct instantiation `Name { … }`, string interpolation, newlines inside expressions, decimal number / identifier lexing (every Number is the literal 1; decimal literals go through the float parser of the standard library, whose table lookups on symbolic digits are out of reach; hexadecimal / octal / binary literal values are covered by the literal kernel, every Identifier is x: the tree shape does not depend on the lexeme) — the mapping from characters to token kinds is the subject of the tokenizer kernel of C08',
            'the reference treats `*` and `/` (and `+` and `-`) as one left-associative level each, as ordinary arithmetic does; operations.md lists them on separate rows']
 ASSUMPTIONS = ['the reference parser (harness/src/h_parse.rs: precedence climbing over the operator table transcribed from book/src/basics/operations.md, plus the primary / call / list forms) is the specification; details on which the documentation is silent follow the behaviour of the unchanged tree and are listed in DESIGN.md',
                'token kinds are symbolic over an alphabet of 37 expression-level kinds (all operators in the table, brackets, keywords if/then/else/per/to, literals, `=` as a representative foreign token)']
@@ -14,6 +14,7 @@ IF, THEN, ELSE = 23, 24, 25
 def bounds(tier):
     n = 3 if tier == 'quick' else 4
     return {'tokenizer': 'operator spellings: every string of 1..2 (thorough: 3) characters over operators / brackets / whitespace / digits and 14 Unicode operator characters must tokenize exactly as the documented spelling table says, or be rejected',
+            'literals': 'hexadecimal (1..32 digits), octal (1..43) and binary (1..128) literals, every digit symbolic within its class (0-9 / a-f / A-F per position; quick: 7 hex lengths x 2 class patterns), separators at fixed positions: the value is the double nearest to the integer the digits spell, literals of 128 bits are rejected',
             'exhaustive_sequences': 'every sequence of 1..%d tokens over the 37-kind alphabet (first token fixed per case, the rest symbolic)' % n,
             'templates': 'longer sequences with operands fixed and 2-3 operator positions symbolic over the 23 operators: x o x o x, x o x o x o x, - x o x o x, x o - x o x, x o x o x !, if x o x then x o x else x o x, if x then x else x o x o x, x o x o x o x with parentheses variants'}
 
@@ -53,7 +54,31 @@ def plan(tier, rnd, units):
             tt = list(t); tt[j] = str(opk)
             cases.append({'id': 'tmpl%d-op%d' % (i, opk), 'label': 'template %s' % ' '.join(tt), 'cfg': {0: ' '.join(tt)}})
     from . import common
-    return [common.tokenizer_job(tier), {'entry': 'h_c10_parse', 'cases': cases, 'opts': {'mode': 'replay', 'max_paths': 200000, 'instr_budget': 50_000_000},
+    return [common.tokenizer_job(tier), literal_job(tier, rnd), {'entry': 'h_c10_parse', 'cases': cases, 'opts': {'mode': 'replay', 'max_paths': 200000, 'instr_budget': 50_000_000},
              'expect_covers': ['c10-real-parser-finished', 'c10-reference-finished', 'c10-both-accept', 'c10-both-reject'], 'selftest_inputs': _inputs}]
+
+def literal_job(tier, rnd):
+    """values of hexadecimal / octal / binary literals: digits symbolic within a class per position"""
+    cases = []
+    def add(base, cls):
+        cases.append({'id': 'lit-b%d-%s' % (base, cls), 'label': 'base %d literal, positions %s' % (base, cls), 'cfg': {0: str(base), 1: cls}})
+    hexlens = [1, 8, 14, 15, 16, 17, 32] if tier == 'quick' else list(range(1, 33))
+    for n in hexlens:
+        add(16, 'd' * n)
+        add(16, ''.join(rnd.choice('dlU') for _ in range(n)))
+        if tier == 'thorough':
+            add(16, 'l' * n); add(16, 'U' * n)
+            add(16, ''.join(rnd.choice('dlU') for _ in range(n)))
+    add(16, 'dl_Ud'); add(16, 'd_d_d_d_d_d_d_d_d_d_d_d_d_d_d_d')
+    for n in ([3, 18, 19] if tier == 'quick' else list(range(1, 43))):
+        add(8, 'o' * n)
+    add(8, 'b' + 'o' * 42); add(8, 't' + 'o' * 42)
+    add(8, 'o_oo_ooo')
+    for n in ([8, 54, 55, 64, 128] if tier == 'quick' else [1, 2, 8, 16, 32, 52, 53, 54, 55, 56, 63, 64, 65, 100, 126, 127, 128]):
+        add(2, 'b' * n)
+    add(2, 'b_bbbb_bbbb')
+    return {'entry': 'h_c10_literal', 'cases': cases, 'opts': {'mode': 'replay', 'max_paths': 2000, 'instr_budget': 50_000_000, 'query_timeout_ms': 60000},
+            'expect_covers': ['c10-literal-parsed', 'c10-literal-accepted', 'c10-literal-rejected'],
+            'selftest_inputs': lambda r, case: {'u%d' % i: {'d': r.randrange(48, 58), 'l': r.randrange(97, 103), 'U': r.randrange(65, 71), 'o': r.randrange(48, 56), 'b': r.randrange(48, 50), 't': r.randrange(50, 52), '_': 0}[c] for i, c in enumerate(case['cfg'][1])}}
 
 def classify(v, case): return None
